@@ -16,26 +16,26 @@ import (
 // which invocation...) are resolved against the model when the step runs, so
 // that a minimised script (steps dropped) stays meaningful.
 type SOp struct {
-	Kind   string
-	Slot   int
-	Realm  string
-	URI    string
-	Opts   wamp.Dict
-	Args   wamp.List
-	Kw     wamp.Dict
-	K      int // selector
-	Var    int // variant: 0 own, 1 another session's, 2 unknown
-	Local  bool
-	Authid string
-	Role   string
-	Xattr  string
-	Roles  wamp.Dict
-	How    int // leave: 0 GOODBYE, 1 lost transport, 2 protocol violation
-	Prog   bool
-	Scribble bool
+	Kind      string
+	Slot      int
+	Realm     string
+	URI       string
+	Opts      wamp.Dict
+	Args      wamp.List
+	Kw        wamp.Dict
+	K         int // selector
+	Var       int // variant: 0 own, 1 another session's, 2 unknown
+	Local     bool
+	Authid    string
+	Role      string
+	Xattr     string
+	Roles     wamp.Dict
+	How       int // leave: 0 GOODBYE, 1 lost transport, 2 protocol violation
+	Prog      bool
+	Scribble  bool
 	Transport wamp.Dict
-	Net      string // "", "raw" or "ws": attach over a simulated network transport
-	Ser      int    // serializer for network transports (0 json, 1 msgpack, 2 cbor)
+	Net       string // "", "raw" or "ws": attach over a simulated network transport
+	Ser       int    // serializer for network transports (0 json, 1 msgpack, 2 cbor)
 }
 
 func (o SOp) String() string {
